@@ -163,7 +163,8 @@ def check_struct(ctx, rep, rule, name, modhint=None, prefix=""):
             ok = cf is not None and "calc" in cf["dirs"]["write"]
             detail = "count field `%s` not found or has no bw(calc)" % cnt
             if ok:
-                ce = cf["dirs"]["write"]["calc"]["value"]
+                from astq import inline_simple_call
+                ce = inline_simple_call(ctx.ast, cf["dirs"]["write"]["calc"]["value"])
                 # <this field>.len() as T  with T the count field's type
                 ok = ce.get("k") == "Cast" and ce["e"].get("k") == "MethodCall" and ce["e"]["method"] == "len" \
                     and ce["e"]["recv"].get("k") == "Path" and ce["e"]["recv"]["path"] == fi["name"] \
